@@ -68,6 +68,7 @@ class K:
 MODULES = ['c19pkg.alpha.util', 'c19pkg.beta.util', 'c19pkg.beta.other', 'C19Cap.util']
 PATHS = {'fn': ['x', 'y'], 'hold': ['value'], 'K': ['a'], 'K.meth': ['m'], 'K.meth2': ['n'],
          'K.Inner': ['i'], 'K.Inner.im': ['q']}
+SHADOW = 'c19zz.c19pkg'          # sorts after c19pkg.*: the plain import is managed first
 REEXPORT = {'alpha_fn': 'fn', 'AlphaK': 'K', 'AlphaK.meth': 'K.meth'}   # in c19pkg.beta.other
 _TREE, _ROOT = [], []
 
@@ -86,9 +87,17 @@ def _tree():
         fh.write(_TEMPLATE % mod)
         if mod == 'c19pkg.beta.other':
           fh.write('from c19pkg.alpha.util import fn as alpha_fn, K as AlphaK\n')
+    # a module that carries the NAME of another top-level package (not part of MODULES, so the
+    # random generator is unaffected): `from c19zz import c19pkg` and `import c19pkg.alpha.util`
+    # bind the same name to different objects
+    os.makedirs(os.path.join(root, 'c19zz'), exist_ok=True)
+    open(os.path.join(root, 'c19zz', '__init__.py'), 'a').close()
+    with open(os.path.join(root, 'c19zz', 'c19pkg.py'), 'w') as fh:
+      fh.write(_TEMPLATE % SHADOW)
     sys.path.insert(0, root)
     importlib.invalidate_caches()
     _TREE.extend(importlib.import_module(m) for m in MODULES)   # every attribute chain exists
+    importlib.import_module(SHADOW)
   return _TREE
 
 
@@ -418,7 +427,9 @@ def _check(case):
     want[(hs, id(holder), 'value')] = ('ref', rs, id(target), evaluate)
   early = any(m.split('.')[0] < '__gin__' for f in case['files'].values() for st in f
               if st[0] == 'import' for m in [st[2]])
-  sig = 'config_str_resolves %%s imports_sorting_before___gin__=%s' % early
+  _multi, _cross, _late = _flags(model)
+  sig = 'config_str_resolves %%s imports_sorting_before___gin__=%s spellings=%s method_after_class=%s' % (
+      early, 'many' if _multi else 'one', _late)
   try:
     text = gin.config_str(max_line_length=200)
     got = _read_config_str(text)
@@ -534,6 +545,14 @@ def _fixed():
                                ['bind', '', _spell(i2, b, 'K.Inner'), 'i', 3]]}, 'parse': ['main']}
   yield {'files': {'main': [EN, ['import', 'from', cap, None], ['bind', '', 'util.fn', 'x', 1]]},
          'parse': ['main']}
+  # a plain import (binds the top package name) and a from-import of a MODULE of that name, in
+  # two files / two calls: the config string has to re-alias one of them
+  pa, fs = ['import', 'plain', a, None], ['import', 'from', SHADOW, None]
+  for parse, files in ((['main'], {'main': [EN, pa, ['bind', '', a + '.fn', 'x', 1], ['include', 'child']],
+                                   'child': [EN, fs, ['bind', '', 'c19pkg.fn', 'y', 2]]}),
+                       (['main', 'later'], {'main': [EN, fs, ['bind', '', 'c19pkg.fn', 'y', 2]],
+                                            'later': [EN, pa, ['bind', 's', a + '.K', 'a', 3]]})):
+    yield {'files': files, 'parse': parse}
   yield {'files': {'main': [EN, ['import', 'from', o, None], fa, ['bind', '', 'other.alpha_fn', 'x', 1],
                             ['bind', '', 'util.fn', 'y', 2], ['bind', '', 'other.AlphaK.meth', 'm', 3],
                             ['bind', 's', 'util.K', 'a', 4]]}, 'parse': ['main']}
